@@ -3,7 +3,7 @@ package congestion
 //vx:pkg github.com/refraction-networking/uquic/internal/congestion
 //vx:entry Harness_C20_reno
 //vx:param quick steps=3
-//vx:param thorough steps=5
+//vx:param thorough steps=4
 //vx:reach Harness_C20_reno C20.grew C20.cut C20.no-second-cut C20.at-minimum C20.mtu-increase C20.app-limited
 
 import (
